@@ -434,6 +434,17 @@ impl SocketTable {
         self.sockets.get(&fd)
     }
 
+    /// Table and index sizes for external monitors (read-only).
+    #[cfg(turmoil_verif)]
+    pub fn verif_counts(&self) -> crate::verif::HostCounts {
+        crate::verif::HostCounts {
+            sockets: self.sockets.len(),
+            bindings: self.bindings.len(),
+            binding_fds: self.bindings.values().map(Vec::len).sum(),
+            connections: self.connections.len(),
+        }
+    }
+
     pub fn iter(&self) -> impl Iterator<Item = (Fd, &Socket)> {
         self.sockets.iter().map(|(&fd, s)| (fd, s))
     }
